@@ -21,6 +21,7 @@ type PropConfig struct {
 	Level   string   `json:"level"`   // evidence level
 	Trusted []string `json:"trusted"` // standing assumptions for the evidence
 	MinObl  int      `json:"min_obligations"`
+	Include []string `json:"include_props"` // obligations tagged with these properties also count (same code, other build)
 }
 
 func loadPropConfig(verifDir, id string) (*PropConfig, error) {
@@ -68,7 +69,7 @@ func setup(repo, verif, tags string) (*Prog, error) {
 	if err != nil {
 		return nil, err
 	}
-	cs, err := loadAllContracts(repo, p.ModPath, filepath.Join(verif, "govc", "trusted"))
+	cs, err := loadAllContracts(repo, p.ModPath, filepath.Join(verif, "govc", "trusted"), strings.Contains(tags, "binary_log"))
 	if err != nil {
 		return nil, err
 	}
@@ -79,14 +80,17 @@ func setup(repo, verif, tags string) (*Prog, error) {
 }
 
 // contractsFor lists the function contracts that serve property id.
-func (p *Prog) contractsFor(id string) []*Contract {
+func (p *Prog) contractsFor(ids ...string) []*Contract {
 	var out []*Contract
 	for _, c := range p.CS.ByKey {
 		if c.Kind != "func" || c.Trusted {
 			continue
 		}
-		if contractServes(c, id) {
-			out = append(out, c)
+		for _, id := range ids {
+			if contractServes(c, id) {
+				out = append(out, c)
+				break
+			}
 		}
 	}
 	sort.Slice(out, func(i, j int) bool { return out[i].Key < out[j].Key })
@@ -144,7 +148,7 @@ func cmdCheck(args []string) int {
 		fmt.Fprintln(os.Stderr, "govc:", err)
 		return 2
 	}
-	cfg := RunConfig{Prop: *prop, Tier: *tier, TimeoutS: 10, Workers: 10, Verbose: *verbose}
+	cfg := RunConfig{Prop: *prop, Tier: *tier, TimeoutS: 20, Workers: 6, Verbose: *verbose}
 	if *tier == "thorough" {
 		cfg.TimeoutS = 60
 		cfg.All = true
@@ -180,7 +184,8 @@ func runProperty(p *Prog, pc *PropConfig, cfg RunConfig, tags string, only strin
 	if tags != "" {
 		suffix = "[" + tags + "]"
 	}
-	for _, c := range p.contractsFor(pc.ID) {
+	ids := append([]string{pc.ID}, pc.Include...)
+	for _, c := range p.contractsFor(ids...) {
 		if only != "" && !strings.Contains(c.Key, only) {
 			continue
 		}
@@ -214,8 +219,11 @@ func runProperty(p *Prog, pc *PropConfig, cfg RunConfig, tags string, only strin
 		// keep only this property's obligations
 		var keep []*Obligation
 		for _, o := range fv.obls {
-			if hasProp(o.Props, pc.ID) {
-				keep = append(keep, o)
+			for _, id := range ids {
+				if hasProp(o.Props, id) {
+					keep = append(keep, o)
+					break
+				}
 			}
 		}
 		fv.obls = keep
@@ -442,6 +450,17 @@ func cmdDump(args []string) int {
 		}
 		fv.addProbes()
 		fmt.Printf("== %s: %d obligations, %d assertions\n", fv.Name, len(fv.obls), len(fv.asserts))
+		if os.Getenv("GOVC_DEBUG") != "" {
+			cnt := map[int]int{}
+			for _, b := range fv.assertBlk {
+				cnt[b]++
+			}
+			for b, n := range cnt {
+				if n > 100 {
+					fmt.Printf("   block %d: %d assertions\n", b, n)
+				}
+			}
+		}
 		for _, o := range fv.obls {
 			fmt.Printf("  %s  [%s] %s\n", o.Name, strings.Join(o.Props, ","), o.Where)
 			if *obl != "" && strings.Contains(o.Name, *obl) {
